@@ -42,6 +42,8 @@ pub enum VerifEvent {
         path: &'static str,
         policy: &'static str,
         term: u64,
+        /// Address of the node's `ReadLease` allocation when `node` is unknown (0 otherwise).
+        lease: usize,
     },
     /// Leader notification published on the leader-change watch.
     LeaderNotify {
